@@ -136,6 +136,8 @@ def gen_world(rng, stacks=("client", "pooled", "hash"), max_nodes=3, tls_ok=Fals
     nodes, servers = gen.node_specs(nn, unix=(not tls and rng.random() < 0.15), item_max=item_max)
     ck = {"default_noreply": rng.random() < 0.4, "timeout": rng.choice([None, 0.5, 3]),
           "connect_timeout": rng.choice([None, 0.5, 3])}
+    if rng.random() < 0.08:
+        ck["default_noreply"] = int(ck["default_noreply"])       # 1 / 0 as a settings file would deliver it
     if rng.random() < 0.3:
         ck["key_prefix"] = E(rng.choice([b"p:", b"pfx-"]))
     if rng.random() < 0.3:
